@@ -340,6 +340,7 @@ def replay(prop, path):
     mod.install()
     work = ROOT / ".work" / ("replay-%d" % os.getpid())
     work.mkdir(parents=True, exist_ok=True)
+    crashed = None
     try:
         if v.get("case", {}).get("call") == "refused-edit":
             from workloads.histories import replay_refused_edit
@@ -347,9 +348,15 @@ def replay(prop, path):
             replay_refused_edit(v)
         else:
             mod.replay(v, work)
+    except Exception as e:  # the recorded input cannot be rebuilt on this tree (e.g. it was itself the product of an earlier violation)
+        crashed = "%s: %s" % (type(e).__name__, str(e)[:300])
     finally:
         shutil.rmtree(work, ignore_errors=True)
     vs = core.REC.violations
+    if crashed and not vs:
+        print("REPLAY inconclusive: the recorded case could not be re-enacted on this tree (%s)" % crashed)
+        print("INCONCLUSIVE property=%s reason=replay could not be re-enacted" % prop)
+        return 2
     if vs:
         for x in vs[:5]:
             print("REPLAY violated: monitor=%s op=%s :: %s" % (x["monitor"], x["op"], x["msg"]))
@@ -357,6 +364,10 @@ def replay(prop, path):
         return 1
     if core.REC.monitor_errors:
         print("INCONCLUSIVE property=%s reason=monitor error %s" % (prop, core.REC.monitor_errors[0]["error"][-500:]))
+        return 2
+    if not sum(core.REC.evals.values()):
+        print("REPLAY inconclusive: re-enacting the recorded case reached no monitor")
+        print("INCONCLUSIVE property=%s reason=replay reached no monitor" % prop)
         return 2
     print("REPLAY held: %d monitor evaluation(s), no violation" % sum(core.REC.evals.values()))
     return 0
